@@ -44,6 +44,11 @@ def run(ctx):
     ctx.guard('E-iii', 'has_dwarf_info', check_presence, ctx, w)
     ctx.guard('W-SUP', 'supplementary', check_sup, ctx, w)
     ctx.floor('W-SUP', 5)
+    # what a supplementary-form attribute resolves to is part of "the same view behind a supplementary link" (rule shared with C04)
+    from props import C04
+    ctx.rule('G-TRANS', 'strp reads this file\'s string table, strp_sup/GNU_strp_alt the supplementary file\'s, each through its own DWARFInfo')
+    ctx.guard('G-TRANS', 'string forms', C04.check_translate, ctx, w)
+    ctx.floor('G-TRANS', 12)
     ctx.guard('L-CONF', 'Gnu_debuglink', elfconf.check_hand_struct, ctx, w, 'Gnu_debuglink')
     cfgs = [c for c in dwconf.CONFIGS_QUICK if c[2] == 4 and c[1] == 32]
     ctx.guard('L-CONF', 'debugsup', dwconf.check_struct, ctx, w, 'Dwarf_debugsup', D.DEBUGSUP, ({},), cfgs)
